@@ -31,7 +31,7 @@ func (e *engine) query(c cfg, ops []string) (line, ans string) {
 			t = strings.Join(tab, ",")
 		}
 		line = fmt.Sprintf("solicitsys.run pa=%s pb=%s ta=%d tb=%d maxa=%d maxb=%d ops=%s",
-			lib.Hex([]byte(c.peers[0])), lib.Hex([]byte(c.peers[1])), c.tpt[0], c.tpt[1], c.max[0], c.max[1], opl)
+			lib.Hex([]byte(c.peers[0])), lib.Hex([]byte(c.peers[1])), c.tpt[0], c.tpt[1], effMax(c.max[0]), effMax(c.max[1]), opl)
 		ans = e.m.Query(line + " orc=" + t)
 		if !strings.HasPrefix(ans, "need ") {
 			return line, ans
